@@ -5,6 +5,7 @@ INVARIANT Step_Iterate
 INVARIANT Step_LoopRule
 INVARIANT Step_Final
 INVARIANT Cl_Law
+INVARIANT Cl_LawAtOwnComposition
 INVARIANT Cl_SelfConsistent
 INVARIANT Cl_VacuumExact
 INVARIANT Cl_PPIdentity
